@@ -25,9 +25,10 @@ fn main() {
          2^32+len / 2^61-1 / 2^61 / 2^62 / 2^63 / u64::MAX-k / random, id byte, body byte, truncation, random byte, \
          insert, delete) fed whole, with random reads and one byte per read, in a child process; non-trivial = the \
          mutated byte belongs to a tag, flags or length field. big:<family>: one message whose frame is exactly \
-         8191/8192/8193/65535/65536/65537/65538/65600/70001/140000 bytes (bytes, bare identifier, quoted string, record \
+         4095/4096/4097/8191/8192/8193/65535/65536/65537/65538/65600/70001/100000/140000 bytes (bytes, bare identifier, quoted string, record \
          body) between 0-2 ordinary messages, delivered whole, in reads of 7/64/1000/4096/8192/65536 bytes, with single \
-         cuts around the frame end and the 8 KiB / 64 KiB marks, and with random reads; always non-trivial. \
+         cuts around the frame end and the 4 KiB / 8 KiB / 64 KiB marks, and with random reads; for commands and routed \
+         messages the big part is the body, the node, the lane, node+lane or the host (class big:<part>); always non-trivial. \
          illtyped:<family>-i32: the 13 typed decoders instantiated with i32, streams of 2-5 well-framed messages whose \
          bodies are an i32 or not (records, texts, floats, ...), fed whole, at every single split, with every pair of \
          cuts around the first ill-typed frame, 3 random cuts, random reads, one byte per read; non-trivial = the \
@@ -36,7 +37,8 @@ fn main() {
     ctx.assume("Typed (Recon-bodied) decoders are compared with a one-shot parse (swimos_recon::parser::parse_recognize) of the body text, so Recon print/parse fidelity (C09) is trusted here");
     ctx.assume("The wire layout model in the harness (field offsets used to aim mutations and to name invalid tags) is self-checked against every encoded frame");
     ctx.assume("Unlinked(Some(empty)) and Unlinked(None) are one message on the wire (both are written as body length 0)");
-    ctx.assume("After the first Err the stream is over (FramedRead semantics, and every production reader of a typed decoder drops the stream at the first Err); nothing is asserted about later calls, re-synchronisation is only recorded as a class");
+    ctx.assume("After the first Err the stream is over (FramedRead semantics, and every production reader of a typed decoder drops the stream at the first Err); outside the illtyped sub-checks nothing is asserted about later calls");
+    ctx.assume("illtyped sub-checks: the decoders are written to carry on after a rejected body (Discarding states, state reset on error), so after the error the following frames must decode and be consumed exactly (law resync:), although every production reader drops the stream at the first Err");
     ctx.assume("Whether a body is of the decoder's type (illtyped sub-checks) is decided by the one-shot parser parse_recognize::<i32>");
     let only_group = std::env::var("C10_GROUP").ok();
     for fam in &fams {
@@ -72,7 +74,9 @@ fn main() {
             continue;
         }
         let scale: f64 = std::env::var("C10_SCALE").ok().and_then(|s| s.parse().ok()).unwrap_or(1.0);
-        let cases = ((ctx.pick(64, 2_560) as f64 * scale) as u64).max(16);
+        // the families with length-prefixed paths get a few hundred (node / lane / host / body x sizes x reads)
+        let paths = matches!(fam.group, "command" | "messages");
+        let cases = ((if paths { ctx.pick(256, 10_240) } else { ctx.pick(96, 3_840) } as f64 * scale) as u64).max(16);
         ctx.prop(
             &format!("big:{}", fam.name),
             cases,
